@@ -163,6 +163,25 @@ func (g *predGen) siblingPair() string {
 // own edge cases (everything, nothing, exactly one key).
 func (g *predGen) complementPair() string {
 	r := g.r
+	if r.Chance(0.2) {
+		// one bound under NOT, often on the empty string: everything / nothing / exactly the empty key
+		lit := g.lit()
+		if r.Chance(0.4) {
+			lit = ""
+		}
+		if r.Bool() {
+			return "!(key " + pick(r, []string{">=", ">", "<=", "<"}) + " " + quote(lit) + ")"
+		}
+		return "!(" + quote(lit) + " " + pick(r, []string{">=", ">", "<=", "<"}) + " key)"
+	}
+	if r.Chance(0.15) {
+		// a literal key predicate ANDed with a key list that holds a non-literal item
+		items := []string{quote(g.lit()), pick(r, []string{"value", "lower(value)", "key", "(value + '')"})}
+		if r.Bool() {
+			items[0], items[1] = items[1], items[0]
+		}
+		return "key = " + quote(g.lit()) + pick(r, []string{" & ", " and "}) + "key in (" + strings.Join(items, ", ") + ")"
+	}
 	l := quote(g.lit())
 	a, b := pick(r, [][2]string{{">", "<="}, {"<", ">="}, {"<", ">"}, {">=", "<="}, {"<=", ">="}, {">", "<"}}), ""
 	op := pick(r, []string{" | ", " or ", " & ", " and "})
@@ -271,7 +290,7 @@ func topPred(g *predGen) string {
 		}
 		return strings.Join(parts, op)
 	}
-	if g.r.Chance(0.04) {
+	if g.r.Chance(0.05) {
 		return g.complementPair()
 	}
 	if g.r.Chance(0.06) {
